@@ -145,6 +145,9 @@ func allocSite(n uint64) string {
 
 func decodeProp(prop string) *Prop {
 	p := &Prop{ID: prop, Setup: decodeSetup(prop)}
+	// a history of the zonehistory campaign is up to 450 000 calls (about 5 s alone); the watchdog
+	// leaves room for a loaded machine
+	p.RunTimeoutSec = 30
 	p.Campaigns = []*Campaign{
 		{
 			Name: "meter", Phase: 0, Enumerated: true, Weight: 1,
